@@ -91,10 +91,15 @@ def body(case, col):
 
 
 def shards(tier):
-    return list(range(16 if tier == "quick" else 64))
+    if tier == "quick":
+        return list(range(16))
+    # thorough: 64 generator shards + 16 coverage-guided fuzzing jobs (atheris/libFuzzer, oracle inside the target)
+    return list(range(64)) + [("fuzz", k) for k in range(16)]
 
 
 def run_shard(spec, ctx):
+    if isinstance(spec, tuple) and spec[0] == "fuzz":
+        return M.run_fuzz_shard("C02", spec[1], ctx, 30000)
     run_given(M.mutated_streams(), body, ctx, ctx.pick(1900, 45000))
     ctx.col.extra["distinct_error_classes"] = len([l for l in ctx.col.labels if l.startswith("err:")])
 
